@@ -14,7 +14,8 @@ META = {
     "carry different counts, within an operation, between repetitions and across the wrap); composed over ordered pairs of operations "
     "from the per-phase records: last(A, p) != first(B, phase after A); plus a continuous mixed history of all operations crossing the "
     "wrap; fragmented reads whose 1st / 2nd-3rd fragment reply is an empty 'partial transfer'; single calls of 65533, 65534 (thorough also 65535, 131069) requests, "
-    "i.e. around the counter's modulus. states = visited (operation, phase) pairs; distinct = distinct (operation, phase).",
+    "i.e. around the counter's modulus; histories that start at open() (every single and ordered pair - thorough also triples - of 14 operations incl. uploads/fragment "
+    "transfers/reads/writes during which the controller refuses the n-th service) on Micro800 / v20 / v32 controllers with and without tag upload. states = visited (operation, phase) pairs; distinct = distinct (operation, phase).",
     "explanation": "exhaustive exploration of the (counter phase x operation) graph with a duplicate detector in the target",
     "assumptions": [
         "the counter is positioned by drawing from the driver's own generator when it is reachable (else by sending 1-count filler messages); the oracle reads only the wire",
@@ -189,13 +190,99 @@ def sweep(rep, opname, phases, full):
     return records
 
 
+_PRESET = {}
+
+
+def preset_tags(pers):
+    """Tag definitions of the reduced P2 project as an application would supply them to a driver created with init_tags=False."""
+    import copy
+    import pycomm3
+
+    if pers not in _PRESET:
+        proj = projgen.build("P2", 0, reduced=True)
+        t = enip.Target(logix.LogixController(proj, pers), enip.Policy(large_fo="refuse08"), keep_cip=False)
+        with net.World(t, io_budget=10**8):
+            d = pycomm3.LogixDriver("10.0.0.1")
+            call(d.open)
+            _PRESET[pers] = copy.deepcopy(d._tags)
+            call(d.close)
+    return copy.deepcopy(_PRESET[pers])
+
+
+FRESH_OPS = ["read1", "read2", "write1", "bitwrite", "readfrag", "writefrag", "generic", "upload",
+             "upload_refused1", "upload_refused2", "readfrag_refused2", "writefrag_refused2", "read2_refused1", "write1_refused1"]
+
+
+def fresh_histories(rep, pers, init_tags, tier):
+    """Histories that START at open(): the very first connected message may be what opens the connection (Micro800 without
+    upload), and operations during which the controller refuses the n-th service (the library may re-send or give up)."""
+    import itertools
+    import pycomm3
+
+    big = [(i * 7) % 3000 for i in range(2100)]
+
+    def refusing(ctl, services, nth, thunk):
+        st = {"n": 0}
+
+        def hook(req, info):
+            if req.service in services:
+                st["n"] += 1
+                if st["n"] == nth:
+                    return (0x0C, [], b"")
+            return None
+        ctl.status_hook = hook
+        try:
+            return thunk()
+        finally:
+            ctl.status_hook = None
+
+    hists = [(a,) for a in FRESH_OPS] + list(itertools.product(FRESH_OPS, repeat=2))
+    if tier == "thorough":
+        sub = ["read1", "readfrag", "upload_refused1", "readfrag_refused2", "write1", "generic"]
+        hists += list(itertools.product(sub, repeat=3))
+    for hist in hists:
+        proj = projgen.build("P2", 0, reduced=True)
+        ctl = logix.LogixController(proj, pers)
+        t = enip.Target(ctl, enip.Policy(large_fo="refuse08"), keep_cip=False, keep_seqs=True)
+        with net.World(t, io_budget=10**8) as w:
+            d = pycomm3.LogixDriver("10.0.0.1", init_tags=init_tags)
+            if not init_tags:
+                d._tags = preset_tags(pers)
+            ops = {
+                "read1": lambda: d.read("plain"), "read2": lambda: d.read("plain", "plain2"), "write1": lambda: d.write("plain", 7), "bitwrite": lambda: d.write("plain.3", True),
+                "readfrag": lambda: d.read("big_int{2100}"), "writefrag": lambda: d.write("big_int{2100}", big),
+                "generic": lambda: d.generic_message(service=0x0E, class_code=0x99, instance=1, attribute=1), "upload": lambda: d.get_tag_list(),
+                "upload_refused1": lambda: refusing(ctl, (0x55,), 1, d.get_tag_list), "upload_refused2": lambda: refusing(ctl, (0x55,), 2, d.get_tag_list),
+                "readfrag_refused2": lambda: refusing(ctl, (0x52,), 2, lambda: d.read("big_int{2100}")), "writefrag_refused2": lambda: refusing(ctl, (0x53,), 2, lambda: d.write("big_int{2100}", big)),
+                "read2_refused1": lambda: refusing(ctl, (0x4C,), 1, lambda: d.read("plain", "plain2")), "write1_refused1": lambda: refusing(ctl, (0x4D,), 1, lambda: d.write("plain", 7)),
+            }
+            o = call(d.open)
+            outs = []
+            for nm in hist:
+                w.io_budget = w.io_total + 40000
+                outs.append(call(ops[nm])[0])
+            dups = [e for e in t.events if e[0].startswith("C17")]
+            per_conn = []
+            for c in t.connections.values():
+                per_conn += [(a, b) for a, b in zip(c.seqs, c.seqs[1:]) if a == b]
+            bad = dups or per_conn or "hang" in outs
+            rep.case(("fresh", pers, init_tags, hist), outcome="ok" if not bad else "duplicate", calls=len(hist) + 1)
+            if bad:
+                what = dups[0][1] if dups else (f"consecutive messages carry count {per_conn[0][0]}" if per_conn else "an operation did not finish")
+                rep.violation(f"sequence/from-open/{hist[-1]}/{'upload' if init_tags else 'no-upload'}", f"{pers} init_tags={init_tags}: open() -> {o!r:.40}, then {list(hist)}: {what}",
+                              {"op": "fresh", "phase": None, "pers": pers, "init_tags": init_tags, "hist": list(hist)})
+            call(d.close)
+    rep.sample({"fresh_histories": len(hists), "personality": pers, "init_tags": init_tags, "operations": FRESH_OPS})
+
+
 def window():
     return list(range(WRAP - 63, WRAP + 1)) + list(range(1, 33))
 
 
 def shards(tier, seed):
     big = BIG_CALLS if tier == "thorough" else BIG_CALLS[:2]
-    return [("sweep", op) for op in ALL_OPS] + [("mixed", k) for k in ("logix", "slc")] + [("bigcall", op, k) for k in big for op in ("read", "write")]
+    return [("sweep", op) for op in ALL_OPS] + [("mixed", k) for k in ("logix", "slc")] + [("bigcall", op, k) for k in big for op in ("read", "write")] \
+        + [("fresh", pers, it) for pers in ("m800", "v32", "v20") for it in (False, True)]
 
 
 # calls whose number of requests sits at the counter's modulus: whatever a request "costs" in counts, k, k+1 or k-1 of them come around to the same count
@@ -215,6 +302,8 @@ def run_shard(shard, tier, seed):
         recs = sweep(rep, op, phases, full)
         rep.extra["records"] = [(op, recs)]
         rep.sample({"operation": op, "phases_visited": len(recs), "counts_per_run": sorted({v[2] for v in recs.values()})[:5], "at_wrap": recs.get(WRAP)})
+    elif shard[0] == "fresh":
+        fresh_histories(rep, shard[1], shard[2], tier)
     elif shard[0] == "bigcall":
         _, op, k = shard
         t, w, d, r = make_world("logix")
@@ -312,6 +401,8 @@ def replay(r):
     if r["op"] == "mixed":
         rep2 = run_shard(("mixed", "logix"), "quick", 0)
         rep.merge(rep2)
+    elif r["op"] == "fresh":
+        rep.merge(run_shard(("fresh", r["pers"], r["init_tags"]), "quick", 0))
     elif r["op"].startswith("bigcall-"):
         rep.merge(run_shard(("bigcall", r["op"][8:], r["k"]), "quick", 0))
     else:
